@@ -1,6 +1,525 @@
-//! C16 — not implemented yet.
+//! C16 — Pause, allow/block lists, supply cap and migration flags cannot be bypassed.
+//! Sub-checks: token gates (lists + pause) on harness and example tokens, the `pausable`
+//! example, the cap check, and the upgrade/migrate flag of the derive macros.
+
+use super::ftcore::*;
 use crate::engine::*;
+use crate::envx::{self, call, Inv};
+use crate::gen::pick;
+use proptest::prelude::*;
+use serde::{Deserialize, Serialize};
+use soroban_sdk::{Address, BytesN, Env, IntoVal, Val};
+use std::collections::BTreeSet;
+
+// ------------------------------------------------------------------ token gates
+
+#[derive(Clone, Debug, Serialize, Deserialize)]
+pub struct GateCase {
+    pub flavor: Flavor,
+    pub n: u8,
+    pub seq: u32,
+    pub listed: u16,
+    pub ops: Vec<Op>,
+}
+
+fn weights(f: Flavor) -> OpWeights {
+    OpWeights {
+        mint: if f.has_mint() { 3 } else { 0 },
+        transfer: 6,
+        transfer_from: 5,
+        approve: 5,
+        burn: if f.has_burn() { 3 } else { 0 },
+        burn_from: if f.has_burn() { 3 } else { 0 },
+        advance: 1,
+        list: if f.has_list() { 7 } else { 0 },
+        pause: if f.has_pause() { 6 } else { 0 },
+        exact_auth: 14,
+        spend_profile: true,
+    }
+}
+
+fn gate_strategy(f: Flavor, tier: Tier) -> BoxedStrategy<GateCase> {
+    let max_ops = tier.pick(35usize, 70usize);
+    (2u8..=4, 100u32..3000, any::<u16>(), proptest::collection::vec(op_strategy(&weights(f)), 1..max_ops))
+        .prop_map(move |(n, seq, listed, ops)| GateCase { flavor: f, n, seq, listed, ops })
+        .boxed()
+}
+
+pub fn run_gates(case: &GateCase, ctx: &mut Ctx) -> R {
+    let t = Tok::setup(case.flavor, case.n as usize, case.seq, envx::BIG_TTL);
+    let e = &t.e;
+    let hs = t.holders();
+    // fund every account while all gates are open, then apply the generated list state
+    if case.flavor.is_allow() {
+        t.setup_lists(0xffff).map_err(|er| violation("C16/setup/list", er))?;
+    }
+    for i in 0..t.accts.len() {
+        let c = if case.flavor.has_mint() {
+            Call {
+                func: "mint",
+                args: vec![t.accts[i].clone().into_val(e), (1000i128 + i as i128).into_val(e)],
+                required: if case.flavor.mint_needs_auth() { vec![t.admin.clone()] } else { vec![] },
+                amount_arg: Some(1),
+            }
+        } else if i > 0 {
+            Call {
+                func: "transfer",
+                args: vec![t.accts[0].clone().into_val(e), t.accts[i].clone().into_val(e), (1000i128 + i as i128).into_val(e)],
+                required: vec![t.accts[0].clone()],
+                amount_arg: Some(2),
+            }
+        } else {
+            continue;
+        };
+        let (r, _) = exec(&t, &c, &AuthMode::Exact);
+        ensure!(r.is_ok(), "C16/setup/fund", "set-up funding failed: {:?}", r);
+    }
+    if case.flavor.has_list() {
+        // allow flavours: mostly allowed; block flavours: mostly not blocked
+        let mask = if case.flavor.is_allow() { case.listed | case.listed.rotate_left(5) } else { case.listed & case.listed.rotate_left(5) };
+        t.setup_lists(mask).map_err(|er| violation("C16/setup/list", er))?;
+    }
+    let mut d = t.dump();
+    let mut hist = Hist::default();
+    let mut blocked: BTreeSet<(&'static str, &'static str)> = BTreeSet::new();
+    let mut reopened = false;
+    let mut ok_after_reopen: BTreeSet<&'static str> = BTreeSet::new();
+
+    for (step, op) in case.ops.iter().enumerate() {
+        let r = match t.resolve(op, &d, &mut hist) {
+            Step::Advanced => {
+                d = t.dump();
+                continue;
+            }
+            Step::Skipped => {
+                ctx.class("skipped_op");
+                continue;
+            }
+            Step::Call(r) => r,
+        };
+        let f = kind_name(r.kind);
+        let what = format!("step {step} {}({:?})", r.call.func, op);
+        let gate = closed_gate(&t, &r, &d);
+        let pre = base_preconditions(&t, &r, &d);
+        let (res, exact) = exec(&t, &r.call, &r.mode);
+        let d2 = t.dump();
+        ctx.op(res.is_ok());
+
+        if res.is_err() {
+            ensure!(d2 == d, format!("C16/{f}/refused-call-changed-state"), "{what}: refused but state changed {:?} -> {:?}", d, d2);
+        }
+        match r.kind {
+            Kind::List => {
+                let (wi, on) = r.list.unwrap();
+                if res.is_ok() {
+                    ensure!(exact, "C16/list/changed-without-manager-auth", "{what}: list changed in auth mode {:?}", r.mode);
+                    // immediate and idempotent
+                    let mut want = d.listed.clone();
+                    want[wi] = on;
+                    ensure!(
+                        d2.listed == want,
+                        "C16/list/not-immediate-or-not-idempotent",
+                        "{what}: membership after call {:?}, expected {:?}",
+                        d2.listed,
+                        want
+                    );
+                    ensure!(d2.bal == d.bal && d2.allow == d.allow && d2.supply == d.supply, "C16/list/side-effect", "{what}: list change touched balances/allowances");
+                    if d.listed[wi] == on {
+                        ctx.class("list_idempotent_repeat");
+                    }
+                    let opens = if case.flavor.is_allow() { on } else { !on };
+                    if opens && d.listed[wi] != on {
+                        reopened = true;
+                    }
+                    // entry-point view
+                    let getter = if case.flavor.is_allow() { "allowed" } else { "blocked" };
+                    let v = envx::call_t::<bool>(e, &t.addr, getter, args![e; hs[wi].clone()]).map_err(|er| violation("C16/list/getter-failed", er))?;
+                    ensure!(v == on, "C16/list/getter-mismatch", "{what}: {getter}() = {v}, expected {on}");
+                } else {
+                    ensure!(!exact, "C16/list/manager-call-refused", "{what}: exact manager call was refused: {:?}", res);
+                }
+            }
+            Kind::Pause => {
+                let (on, by_owner) = r.pause.unwrap();
+                let should = exact && by_owner && (d.paused != on);
+                ensure!(
+                    res.is_ok() == should,
+                    if on { "C16/pause/alternation-or-auth" } else { "C16/unpause/alternation-or-auth" },
+                    "{what}: paused before = {}, by_owner = {by_owner}, exact auth = {exact}: call {} but should {}",
+                    d.paused,
+                    if res.is_ok() { "succeeded" } else { "failed" },
+                    if should { "succeed" } else { "fail" }
+                );
+                if res.is_ok() {
+                    ensure!(d2.paused == on, "C16/pause/flag-wrong", "{what}: paused() = {} after the call", d2.paused);
+                    let v = envx::call_t::<bool>(e, &t.addr, "paused", args![e]).map_err(|er| violation("C16/pause/getter-failed", er))?;
+                    ensure!(v == on, "C16/pause/getter-mismatch", "{what}: paused() entry point = {v}");
+                    if !on {
+                        reopened = true;
+                    }
+                }
+            }
+            _ => {
+                if res.is_ok() {
+                    if let Some(g) = gate {
+                        bail!(
+                            format!("C16/{f}/gate-bypass:{g}"),
+                            "{what}: succeeded although gate `{g}` is closed (flavour {}, listed {:?}, paused {})",
+                            case.flavor.name(),
+                            d.listed,
+                            d.paused
+                        );
+                    }
+                    if reopened {
+                        ok_after_reopen.insert(f);
+                    }
+                } else {
+                    if let Some(g) = gate {
+                        if exact && pre.is_ok() {
+                            blocked.insert((f, g));
+                            ctx.class(&format!("blocked:{f}:{g}"));
+                        }
+                    } else if exact && pre.is_ok() {
+                        // documented: with every gate open and all other preconditions met the call works
+                        bail!(
+                            format!("C16/{f}/refused-with-open-gates"),
+                            "{what}: exact authorization, preconditions met, gates open (listed {:?}, paused {}), but refused: {:?}",
+                            d.listed,
+                            d.paused,
+                            res
+                        );
+                    }
+                }
+            }
+        }
+        d = d2;
+    }
+    if blocked.len() >= 3 && !ok_after_reopen.is_empty() {
+        ctx.nontrivial = true;
+        ctx.class("nontrivial");
+    }
+    Ok(())
+}
+
+// ------------------------------------------------------------------ pausable example (counter)
+
+#[derive(Clone, Debug, Serialize, Deserialize)]
+pub enum POp {
+    Increment,
+    Reset,
+    Pause { on: bool, by_owner: bool, with_auth: bool },
+}
+#[derive(Clone, Debug, Serialize, Deserialize)]
+pub struct PCase {
+    pub ops: Vec<POp>,
+}
+fn pcase_strategy(tier: Tier) -> BoxedStrategy<PCase> {
+    let op = prop_oneof![
+        4 => Just(POp::Increment),
+        2 => Just(POp::Reset),
+        4 => (any::<bool>(), proptest::bool::weighted(0.8), proptest::bool::weighted(0.8))
+            .prop_map(|(on, by_owner, with_auth)| POp::Pause { on, by_owner, with_auth }),
+    ];
+    proptest::collection::vec(op, 1..tier.pick(40usize, 90usize)).prop_map(|ops| PCase { ops }).boxed()
+}
+pub fn run_pausable(case: &PCase, ctx: &mut Ctx) -> R {
+    use crate::examples::pausable::contract::ExampleContract;
+    let e = envx::new_env(100, envx::BIG_TTL);
+    let owner = envx::actor(&e);
+    let other = envx::actor(&e);
+    let c = e.register(ExampleContract, (owner.clone(),));
+    let mut paused = false;
+    let mut counter: i32 = 0;
+    let (mut blocked_inc, mut ok_after) = (false, false);
+    let mut was_unpaused = false;
+    for (i, op) in case.ops.iter().enumerate() {
+        match op {
+            POp::Increment => {
+                envx::no_auth(&e);
+                let r = envx::call_t::<i32>(&e, &c, "increment", args![&e]);
+                ctx.op(r.is_ok());
+                if paused {
+                    ensure!(r.is_err(), "C16/pausable-example/increment-while-paused", "step {i}: increment succeeded while paused");
+                    blocked_inc = true;
+                } else {
+                    ensure!(r == Ok(counter + 1), "C16/pausable-example/increment-wrong", "step {i}: increment returned {:?}, expected {}", r, counter + 1);
+                    counter += 1;
+                    if was_unpaused {
+                        ok_after = true;
+                    }
+                }
+            }
+            POp::Reset => {
+                envx::no_auth(&e);
+                let r = call(&e, &c, "emergency_reset", args![&e]);
+                ctx.op(r.is_ok());
+                ensure!(r.is_ok() == paused, "C16/pausable-example/when_paused-guard", "step {i}: emergency_reset {:?} while paused = {paused}", r.is_ok());
+                if r.is_ok() {
+                    counter = 0;
+                }
+            }
+            POp::Pause { on, by_owner, with_auth } => {
+                let who = if *by_owner { &owner } else { &other };
+                let f = if *on { "pause" } else { "unpause" };
+                if *with_auth {
+                    envx::set_auth(&e, &[(who, &Inv::new(&c, f, args![&e; who.clone()]))]);
+                } else {
+                    envx::no_auth(&e);
+                }
+                let r = call(&e, &c, f, args![&e; who.clone()]);
+                envx::no_auth(&e);
+                ctx.op(r.is_ok());
+                let should = *by_owner && *with_auth && paused != *on;
+                ensure!(
+                    r.is_ok() == should,
+                    "C16/pausable-example/alternation-or-auth",
+                    "step {i}: {f} by_owner={by_owner} auth={with_auth} paused={paused}: ok={}",
+                    r.is_ok()
+                );
+                if r.is_ok() {
+                    paused = *on;
+                    if !*on {
+                        was_unpaused = true;
+                    }
+                }
+            }
+        }
+        let p = envx::call_t::<bool>(&e, &c, "paused", args![&e]).map_err(|er| violation("C16/pausable-example/getter-failed", er))?;
+        ensure!(p == paused, "C16/pausable-example/flag", "step {i}: paused() = {p}, model {paused}");
+    }
+    if blocked_inc && ok_after {
+        ctx.nontrivial = true;
+        ctx.class("nontrivial_pausable");
+    }
+    Ok(())
+}
+
+// ------------------------------------------------------------------ cap
+
+#[derive(Clone, Debug, Serialize, Deserialize)]
+pub struct CapCase {
+    #[serde(with = "crate::gen::i128_str")]
+    pub cap: i128,
+    pub mints: Vec<(u16, Amt)>,
+}
+fn cap_strategy(tier: Tier) -> BoxedStrategy<CapCase> {
+    let cap = prop_oneof![
+        3 => 0i128..=5000,
+        2 => crate::gen::amount_pos(),
+        1 => proptest::sample::select(vec![i128::MAX, i128::MAX - 1, i128::MAX / 2 + 1, 0i128, 1]),
+    ];
+    let amt = prop_oneof![
+        5 => (-2i8..=2).prop_map(Amt::CapGap),
+        2 => (0i128..=3000).prop_map(Amt::Abs),
+        2 => crate::gen::amount_any().prop_map(Amt::Abs),
+        1 => (-2i8..=2).prop_map(Amt::SupplyGap),
+    ];
+    (cap, proptest::collection::vec((any::<u16>(), amt), 1..tier.pick(20usize, 40usize))).prop_map(|(cap, mints)| CapCase { cap, mints }).boxed()
+}
+pub fn run_cap(case: &CapCase, ctx: &mut Ctx) -> R {
+    use crate::examples::fungible_capped::contract::ExampleContract;
+    let e = envx::new_env(100, envx::BIG_TTL);
+    let accts = envx::actors(&e, 3);
+    let c = e.register(ExampleContract, (case.cap,));
+    let mut supply: i128 = 0;
+    let (mut at_cap, mut over_cap, mut ok) = (false, false, false);
+    for (i, (to, amt)) in case.mints.iter().enumerate() {
+        let a = match amt {
+            Amt::Abs(x) => *x,
+            Amt::CapGap(d) => (case.cap - supply).saturating_add(*d as i128),
+            Amt::SupplyGap(d) => (i128::MAX - supply).saturating_add(*d as i128),
+            _ => 1,
+        };
+        let to = accts[pick(*to, accts.len())].clone();
+        envx::no_auth(&e);
+        let r = call(&e, &c, "mint", args![&e; to, a]);
+        ctx.op(r.is_ok());
+        let s2 = envx::call_t::<i128>(&e, &c, "total_supply", args![&e]).map_err(|er| violation("C16/cap/total_supply-failed", er))?;
+        if r.is_ok() {
+            ensure!(s2 <= case.cap, "C16/cap/supply-above-cap", "mint {i} of {a} lifted the supply to {s2} above the cap {}", case.cap);
+            ok = true;
+            if s2 == case.cap && a > 0 {
+                at_cap = true;
+                ctx.class("mint_exactly_to_cap");
+            }
+            supply = s2;
+        } else {
+            ensure!(s2 == supply, "C16/cap/refused-mint-changed-supply", "refused mint {i} changed the supply {supply} -> {s2}");
+            let fits = a >= 0 && supply.checked_add(a).map(|s| s <= case.cap).unwrap_or(false);
+            if fits {
+                ctx.class("cap_refused_within_cap");
+            } else if a > 0 {
+                over_cap = true;
+                ctx.class("mint_over_cap_refused");
+            }
+        }
+    }
+    if ok && over_cap && at_cap {
+        ctx.nontrivial = true;
+        ctx.class("nontrivial_cap");
+    }
+    Ok(())
+}
+
+// ------------------------------------------------------------------ upgrade / migrate
+
+#[derive(Clone, Debug, Serialize, Deserialize)]
+pub enum MOp {
+    Upgrade { by_owner: bool, with_auth: bool },
+    Migrate { by_owner: bool, with_auth: bool },
+}
+#[derive(Clone, Debug, Serialize, Deserialize)]
+pub struct MigCase {
+    /// start from the `Upgradeable`-only v1 example (true) or directly from a migratable contract that was never upgraded (false)
+    pub from_v1: bool,
+    pub ops: Vec<MOp>,
+}
+fn mig_strategy(tier: Tier) -> BoxedStrategy<MigCase> {
+    let op = prop_oneof![
+        2 => (proptest::bool::weighted(0.8), proptest::bool::weighted(0.8)).prop_map(|(by_owner, with_auth)| MOp::Upgrade { by_owner, with_auth }),
+        3 => (proptest::bool::weighted(0.8), proptest::bool::weighted(0.8)).prop_map(|(by_owner, with_auth)| MOp::Migrate { by_owner, with_auth }),
+    ];
+    (any::<bool>(), proptest::collection::vec(op, 1..tier.pick(12usize, 25usize))).prop_map(|(from_v1, ops)| MigCase { from_v1, ops }).boxed()
+}
+
+const V2_WASM: &[u8] = include_bytes!("/repo/examples/upgradeable/testdata/upgradeable_v2_example.wasm");
+
+fn upload_v2(e: &Env) -> BytesN<32> {
+    e.deployer().upload_contract_wasm(V2_WASM)
+}
+
+pub fn run_migration(case: &MigCase, ctx: &mut Ctx) -> R {
+    use crate::examples::upgradeable_v1::contract::ExampleContract as V1;
+    use crate::examples::upgradeable_v2::contract::{Data, ExampleContract as V2, OWNER};
+    let e = envx::new_env(100, envx::BIG_TTL);
+    let owner = envx::actor(&e);
+    let other = envx::actor(&e);
+    let hash = upload_v2(&e);
+    // the contract under test always runs NATIVE code of the current tree:
+    // v1 (derive(Upgradeable)) before the first upgrade, v2 (derive(UpgradeableMigratable)) afterwards.
+    let addr: Address;
+    let mut is_v2;
+    if case.from_v1 {
+        addr = e.register(V1, (owner.clone(),));
+        is_v2 = false;
+    } else {
+        addr = e.register(V2, ());
+        e.as_contract(&addr, || e.storage().instance().set(&OWNER, &owner));
+        is_v2 = true;
+    }
+    let mut can_migrate = false; // model: an upgrade happened since the last completed migration
+    let (mut refused_without_upgrade, mut ok_once, mut refused_twice) = (false, false, false);
+    let mut last_was_migrate_ok = false;
+    for (i, op) in case.ops.iter().enumerate() {
+        match op {
+            MOp::Upgrade { by_owner, with_auth } => {
+                let who = if *by_owner { &owner } else { &other };
+                let a: soroban_sdk::Vec<Val> = args![&e; hash.clone(), who.clone()];
+                if *with_auth {
+                    envx::set_auth(&e, &[(who, &Inv::new(&addr, "upgrade", a.clone()))]);
+                } else {
+                    envx::no_auth(&e);
+                }
+                let r = call(&e, &addr, "upgrade", a);
+                envx::no_auth(&e);
+                ctx.op(r.is_ok());
+                let should = *by_owner && *with_auth;
+                ensure!(r.is_ok() == should, "C16/upgrade/auth", "step {i}: upgrade by_owner={by_owner} auth={with_auth} ok={}", r.is_ok());
+                if r.is_ok() {
+                    // the instance now points at the uploaded wasm; re-install the native v2 code of the
+                    // current tree at the same address (instance storage is kept)
+                    e.register_at(&addr, V2, ());
+                    is_v2 = true;
+                    can_migrate = true;
+                    last_was_migrate_ok = false;
+                }
+            }
+            MOp::Migrate { by_owner, with_auth } => {
+                if !is_v2 {
+                    // v1 has no migrate entry point at all
+                    ctx.class("migrate_on_v1_skipped");
+                    continue;
+                }
+                let who = if *by_owner { &owner } else { &other };
+                let data = Data { num1: i as u32, num2: 7 };
+                let a: soroban_sdk::Vec<Val> = args![&e; data, who.clone()];
+                if *with_auth {
+                    envx::set_auth(&e, &[(who, &Inv::new(&addr, "migrate", a.clone()))]);
+                } else {
+                    envx::no_auth(&e);
+                }
+                let r = call(&e, &addr, "migrate", a);
+                envx::no_auth(&e);
+                ctx.op(r.is_ok());
+                if r.is_ok() {
+                    ensure!(
+                        can_migrate,
+                        "C16/migrate/completed-without-pending-upgrade",
+                        "step {i}: migrate succeeded although no upgrade happened since the last completed migration"
+                    );
+                    ensure!(*by_owner && *with_auth, "C16/migrate/auth", "step {i}: migrate succeeded by_owner={by_owner} auth={with_auth}");
+                    can_migrate = false;
+                    ok_once = true;
+                    last_was_migrate_ok = true;
+                } else {
+                    if *by_owner && *with_auth {
+                        ensure!(
+                            !can_migrate,
+                            "C16/migrate/refused-after-upgrade",
+                            "step {i}: authorized migrate refused although an upgrade is pending: {:?}",
+                            r
+                        );
+                        if last_was_migrate_ok {
+                            refused_twice = true;
+                            ctx.class("second_migrate_refused");
+                        } else {
+                            refused_without_upgrade = true;
+                            ctx.class("migrate_without_upgrade_refused");
+                        }
+                    }
+                }
+            }
+        }
+        let flag = e.as_contract(&addr, || stellar_contract_utils::upgradeable::can_complete_migration(&e));
+        ensure!(flag == can_migrate, "C16/migrate/flag", "step {i}: can_complete_migration = {flag}, model {can_migrate}");
+    }
+    if ok_once && (refused_twice || refused_without_upgrade) {
+        ctx.nontrivial = true;
+        ctx.class("nontrivial_migration");
+    }
+    Ok(())
+}
+
+macro_rules! gate_sub {
+    ($name:expr, $f:expr, $q:expr, $t:expr) => {{
+        fn strat(tier: Tier) -> BoxedStrategy<GateCase> {
+            gate_strategy($f, tier)
+        }
+        gen_sub::<GateCase>($name, $q, $t, strat, run_gates)
+    }};
+}
 
 pub fn property() -> Property {
-    Property { id: "C16", rule: "", subs: vec![], floors: vec![], assumptions: vec![] }
+    Property {
+        id: "C16",
+        rule: "gate subs: case = (flavour, 2..4 funded accounts, generated initial list membership, history of <=35 (thorough 70) token entry points \
+               interleaved with allow/disallow, block/unblock, pause/unpause, each with an auth mode); non-trivial = >=3 distinct (entry point, closed gate) pairs refused \
+               AND an entry point succeeding after a gate was re-opened. pausable-example: increment refused while paused and working after unpause. \
+               cap: a mint exactly to the cap, one refused above it. migration: a completed migrate plus a refused second/unprepared migrate. distinct = distinct serialised case",
+        subs: vec![
+            gate_sub!("allow", Flavor::Allow, 1500, 30000),
+            gate_sub!("block", Flavor::Block, 1500, 30000),
+            gate_sub!("ex-allowlist", Flavor::ExAllow, 1200, 24000),
+            gate_sub!("ex-blocklist", Flavor::ExBlock, 1000, 20000),
+            gate_sub!("ex-pausable", Flavor::ExPausable, 1500, 30000),
+            gen_sub::<PCase>("pausable-example", 800, 16000, pcase_strategy, run_pausable),
+            gen_sub::<CapCase>("cap", 1500, 30000, cap_strategy, run_cap),
+            gen_sub::<MigCase>("migration", 800, 16000, mig_strategy, run_migration),
+        ],
+        floors: vec![],
+        assumptions: vec![
+            "Soroban native test host is trusted; after `upgrade` the native code of the current tree is re-installed at the same address (register_at keeps instance storage) because no wasm target is installed",
+            "the spender is not vetted by the lists (module docs); `approve` is not declared pausable in the fungible-pausable example",
+        ],
+    }
 }
